@@ -53,6 +53,10 @@ func run(r *vk.Run) {
 		bookingPhase(r)
 		r.Unguard()
 	}
+	if r.Guard("C08/crash/multi-subscriber", "multi-subscriber scenarios") {
+		multiSubscriber(r)
+		r.Unguard()
+	}
 
 	r.Exhaustive(!r.Quick())
 	r.Require("table-cells", 2048)
